@@ -65,7 +65,8 @@ func init() {
 	extra = append(extra, func(o *out) {
 		o.f("\n(* C14: one processor per syncer (the object that carries the halted flag) *)\n")
 		var rows []string
-		for _, c := range [][2]string{{"l1infotreesync/l1infotreesync.go", "New"}, {"bridgesync/bridgesync.go", "newBridgeSync"}} {
+		for _, c := range [][2]string{{"l1infotreesync/l1infotreesync.go", "New"}, {"bridgesync/bridgesync.go", "newBridgeSync"},
+			{"lastgersync/lastgersync.go", "New"}} {
 			n, same, note := c14Wiring(c[0], c[1])
 			b := "false"
 			if same {
